@@ -1353,4 +1353,272 @@ theorem open_get_after (hpc : ∀ w, pc w = popcount w) (hsiw : ∀ w k, siw w k
     rfl
 
 end OpenP
+/-! ### `CompactEndPositions::try_build` -/
+
+/-- The zero-filled ("effective") sequence: a zero inherits the previous non-zero value
+(`prev_nonzero`, initially `pn`). -/
+def fillFrom : Nat → List Nat → List Nat
+  | _, [] => []
+  | pn, p :: ps => if p > 0 then p :: fillFrom p ps else pn :: fillFrom pn ps
+
+/-- `try_build` does not hit its early `return None`: the non-zero entries are non-decreasing. -/
+def endMono : Nat → List Nat → Bool
+  | _, [] => true
+  | pn, p :: ps =>
+    if p > 0 then (if pn > 0 ∧ p < pn then false else endMono p ps) else endMono pn ps
+
+theorem endLoop_eq (ends : List Nat) (i : Nat) (st : BState) (pn : Nat) :
+    endLoop ends i st pn =
+      if endMono pn ends = true then some (coreLoop true (fillFrom pn ends) i st) else none := by
+  induction ends generalizing i st pn with
+  | nil => simp [endLoop, endMono, fillFrom, coreLoop]
+  | cons p ps ih =>
+    simp only [endLoop, endMono, fillFrom]
+    by_cases hp : p > 0
+    · simp only [hp, if_true]
+      by_cases hbad : pn > 0 ∧ p < pn
+      · simp [hbad]
+      · simp only [hbad, if_false]
+        rw [ih]
+        have hne : p ≠ 0 := by omega
+        simp [coreLoop, hne]
+    · simp only [hp, if_false]
+      by_cases h0 : pn = 0
+      · simp only [h0, if_true]
+        rw [ih]
+        simp [coreLoop]
+      · simp only [h0, if_false]
+        rw [ih]
+        simp [coreLoop, h0]
+
+theorem fillFrom_length (pn : Nat) (ends : List Nat) : (fillFrom pn ends).length = ends.length := by
+  induction ends generalizing pn with
+  | nil => rfl
+  | cons p ps ih => simp only [fillFrom]; split <;> simp [ih]
+
+theorem fillFrom_sorted (pn : Nat) (ends : List Nat) (h : endMono pn ends = true) :
+    (fillFrom pn ends).Pairwise (· ≤ ·) ∧ ∀ v ∈ fillFrom pn ends, pn ≤ v := by
+  induction ends generalizing pn with
+  | nil => simp [fillFrom]
+  | cons p ps ih =>
+    simp only [endMono] at h
+    simp only [fillFrom]
+    by_cases hp : p > 0
+    · simp only [hp, if_true] at h ⊢
+      by_cases hbad : pn > 0 ∧ p < pn
+      · simp [hbad] at h
+      · simp only [hbad, if_false] at h
+        obtain ⟨a, b⟩ := ih p h
+        refine ⟨List.pairwise_cons.mpr ⟨b, a⟩, ?_⟩
+        intro v hv
+        rcases List.mem_cons.mp hv with rfl | hv
+        · omega
+        · have := b v hv; omega
+    · simp only [hp, if_false] at h ⊢
+      obtain ⟨a, b⟩ := ih pn h
+      refine ⟨List.pairwise_cons.mpr ⟨b, a⟩, ?_⟩
+      intro v hv
+      rcases List.mem_cons.mp hv with rfl | hv
+      · exact Nat.le_refl _
+      · exact b v hv
+
+/-- What the zero-filled sequence holds at index `i`: the entry itself if non-zero, otherwise the
+initial value or the last earlier non-zero entry. -/
+theorem fillFrom_getElem (pn : Nat) (ends : List Nat) (i : Nat) (hi : i < ends.length)
+    (hi' : i < (fillFrom pn ends).length) :
+    (ends[i] ≠ 0 → (fillFrom pn ends)[i] = ends[i]) ∧
+    (ends[i] = 0 → ((fillFrom pn ends)[i] = pn ∧ ∀ j', j' ≤ i → ends[j']? = some 0) ∨
+      ∃ j, ∃ (hj : j < i), ends[j] ≠ 0 ∧ (fillFrom pn ends)[i] = ends[j] ∧
+        ∀ j', j < j' → j' ≤ i → ends[j']? = some 0) := by
+  induction ends generalizing pn i with
+  | nil => simp at hi
+  | cons p ps ih =>
+    cases i with
+    | zero =>
+      by_cases hp : p > 0
+      · have e : fillFrom pn (p :: ps) = p :: fillFrom p ps := by simp [fillFrom, hp]
+        refine ⟨fun _ => ?_, fun h => ?_⟩
+        · simp [e]
+        · simp at h; omega
+      · have hp0 : p = 0 := by omega
+        have e : fillFrom pn (p :: ps) = pn :: fillFrom pn ps := by simp [fillFrom, hp]
+        refine ⟨fun h => ?_, fun _ => Or.inl ⟨?_, ?_⟩⟩
+        · simp at h; omega
+        · simp [e]
+        · intro j' hj'
+          have : j' = 0 := by omega
+          subst this; simp [hp0]
+    | succ i =>
+      have hi2 : i < ps.length := by simpa using hi
+      by_cases hp : p > 0
+      · have e : fillFrom pn (p :: ps) = p :: fillFrom p ps := by simp [fillFrom, hp]
+        have hi3 : i < (fillFrom p ps).length := by rw [fillFrom_length]; exact hi2
+        obtain ⟨a, b⟩ := ih p i hi2 hi3
+        simp only [e, List.getElem_cons_succ]
+        refine ⟨a, fun h => ?_⟩
+        rcases b h with ⟨b1, b2⟩ | ⟨j, hj, b1, b2, b3⟩
+        · refine Or.inr ⟨0, by omega, by simp; omega, by simpa using b1, ?_⟩
+          intro j' h1 h2
+          obtain ⟨n, rfl⟩ : ∃ n, j' = n + 1 := ⟨j' - 1, by omega⟩
+          simpa using b2 n (by omega)
+        · refine Or.inr ⟨j + 1, by omega, by simpa using b1, by simpa using b2, ?_⟩
+          intro j' h1 h2
+          obtain ⟨n, rfl⟩ : ∃ n, j' = n + 1 := ⟨j' - 1, by omega⟩
+          simpa using b3 n (by omega) (by omega)
+      · have hp0 : p = 0 := by omega
+        have e : fillFrom pn (p :: ps) = pn :: fillFrom pn ps := by simp [fillFrom, hp]
+        have hi3 : i < (fillFrom pn ps).length := by rw [fillFrom_length]; exact hi2
+        obtain ⟨a, b⟩ := ih pn i hi2 hi3
+        simp only [e, List.getElem_cons_succ]
+        refine ⟨a, fun h => ?_⟩
+        rcases b h with ⟨b1, b2⟩ | ⟨j, hj, b1, b2, b3⟩
+        · refine Or.inl ⟨b1, ?_⟩
+          intro j' h2
+          cases j' with
+          | zero => simp [hp0]
+          | succ n => simpa using b2 n (by omega)
+        · refine Or.inr ⟨j + 1, by omega, by simpa using b1, by simpa using b2, ?_⟩
+          intro j' h1 h2
+          obtain ⟨n, rfl⟩ : ∃ n, j' = n + 1 := ⟨j' - 1, by omega⟩
+          simpa using b3 n (by omega) (by omega)
+
+theorem fillFrom_mem (pn : Nat) (ends : List Nat) : ∀ v ∈ fillFrom pn ends, v = pn ∨ v ∈ ends := by
+  induction ends generalizing pn with
+  | nil => simp [fillFrom]
+  | cons p ps ih =>
+    intro v hv
+    simp only [fillFrom] at hv
+    by_cases hp : p > 0
+    · simp only [hp, if_true] at hv
+      rcases List.mem_cons.mp hv with rfl | hv
+      · simp
+      · rcases ih p v hv with h | h
+        · simp [h]
+        · exact Or.inr (List.mem_cons_of_mem _ h)
+    · simp only [hp, if_false] at hv
+      rcases List.mem_cons.mp hv with rfl | hv
+      · simp
+      · rcases ih pn v hv with h | h
+        · exact Or.inl h
+        · exact Or.inr (List.mem_cons_of_mem _ h)
+
+/-- What an end table answers, in terms of the zero-filled sequence. -/
+def endFn (ends : List Nat) (i : Nat) : Option Nat :=
+  match (fillFrom 0 ends)[i]? with
+  | none => none
+  | some 0 => none
+  | some v => some v
+
+section EndP
+variable {pc : Word → Nat} {siw : Word → Nat → Nat} {rate : Nat}
+
+theorem end_table_spec (hpc : ∀ w, pc w = popcount w) (hsiw : ∀ w k, siw w k = selectInWordSpec w k)
+    (hrate : 0 < rate) (ends : List Nat) (len : Nat) (hmono : endMono 0 ends = true)
+    (hle : ∀ e ∈ ends, e ≤ len) (hsmall : ends.length < usizeMax) :
+    ∃ T, tryBuildEnd pc siw rate ends len = some T ∧ WF pc rate T ∧
+      ∀ i, tableFn (endFlavor pc) T i = endFn ends i := by
+  have hsorted := (fillFrom_sorted 0 ends hmono).1
+  have hlenG := fillFrom_length 0 ends
+  have inv := binv_final true (divCeil (len + 1) 64) (fillFrom 0 ends) hsorted
+  rw [hlenG] at inv
+  have hcap : ∀ v ∈ fillFrom 0 ends, v < 64 * divCeil (len + 1) 64 := by
+    intro v hv
+    have : v ≤ len := by
+      rcases fillFrom_mem 0 ends v hv with h | h
+      · omega
+      · exact hle v h
+    unfold divCeil; omega
+  unfold tryBuildEnd
+  dsimp only
+  rw [endLoop_eq, if_pos hmono]
+  dsimp only
+  generalize hst : coreLoop true (fillFrom 0 ends) 0
+    { ib := List.replicate (divCeil (len + 1) 64) 0, adv := List.replicate (divCeil ends.length 64) 0,
+      prev := none, ibOnes := 0 } = st at inv
+  by_cases h0 : st.ibOnes = 0
+  · rw [if_pos h0]
+    refine ⟨_, rfl, ?_, ?_⟩
+    · exact { arank := rfl, ones := by simp [emptyEnd, allBits], samples := by intro s hs; simp [emptyEnd] at hs,
+              small := by show 0 < usizeMax; decide }
+    · intro i
+      have hnone : tableFn (endFlavor pc) (emptyEnd len) i = none := by simp [tableFn, emptyEnd]
+      rw [hnone]
+      unfold endFn
+      cases hg : (fillFrom 0 ends)[i]? with
+      | none => rfl
+      | some v =>
+        cases v with
+        | zero => rfl
+        | succ v =>
+          exfalso
+          have hi : i < (fillFrom 0 ends).length := by
+            by_cases h : i < (fillFrom 0 ends).length
+            · exact h
+            · rw [List.getElem?_eq_none (by omega)] at hg; simp at hg
+          rw [List.getElem?_eq_getElem hi] at hg
+          have hv : (fillFrom 0 ends)[i] = v + 1 := Option.some.inj hg
+          obtain ⟨_, m2⟩ := inv.main i hi
+          obtain ⟨_, a2⟩ := m2 (by rw [hv]; simp) (hcap _ (List.getElem_mem hi))
+          have := selectB_lt_count _ _ _ a2
+          rw [← inv.ones] at this
+          omega
+  · rw [if_neg h0]
+    refine ⟨_, rfl, ?_, ?_⟩
+    · have := wf_of_binv (pc := pc) (siw := siw) hpc hsiw hrate true _ _ (fillFrom 0 ends) st inv
+        (by rw [hlenG]; exact hsmall) len []
+      rw [hlenG] at this
+      exact this
+    · intro i
+      unfold endFn
+      by_cases hi : i < (fillFrom 0 ends).length
+      · rw [List.getElem?_eq_getElem hi]
+        obtain ⟨t1, t2⟩ := tableFn_of_binv (endFlavor pc) true _ _ (fillFrom 0 ends) st inv
+          { ibWords := st.ib, ibLen := len, ibRank := [],
+            ibSelectSamples := buildSelectSamples pc siw rate st.ib st.ibOnes, ibOnes := st.ibOnes,
+            advanceWords := st.adv, numOpens := ends.length, advanceRank := buildCumulativeRank pc st.adv }
+          rfl rfl hlenG.symm i hi
+        cases hv : (fillFrom 0 ends)[i] with
+        | zero => exact t1 ⟨rfl, hv⟩
+        | succ v =>
+          have := t2 (by rw [hv]; simp) (hcap _ (List.getElem_mem hi))
+          rw [this, hv]; rfl
+      · rw [List.getElem?_eq_none (by omega)]
+        unfold tableFn
+        rw [if_neg (by show ¬ i < ends.length; omega)]
+
+/-- `EndPositions` (either variant) after any history. -/
+theorem end_get_after (hpc : ∀ w, pc w = popcount w) (hsiw : ∀ w k, siw w k = selectInWordSpec w k)
+    (hrate : 0 < rate) (ends : List Nat) (len : Nat) (hle : ∀ e ∈ ends, e ≤ len)
+    (hsmall : ends.length < usizeMax) (hist : List Nat) (i : Nat) :
+    ((EndPositions.build pc siw rate ends len).get pc siw rate
+      ((EndPositions.build pc siw rate ends len).runFrom pc siw rate Cursor.init hist).2 i).1
+      = .val (if endMono 0 ends = true then endFn ends i else ends[i]?.filter (· > 0)) := by
+  unfold EndPositions.build
+  by_cases he : ends.isEmpty = true
+  · rw [if_pos he]
+    have : ends = [] := List.isEmpty_iff.mp he
+    subst this
+    have wf : WF pc rate (emptyEnd len) :=
+      { arank := rfl, ones := by simp [emptyEnd, allBits], samples := by intro s hs; simp [emptyEnd] at hs,
+        small := by show 0 < usizeMax; decide }
+    rw [end_runFrom_compact]
+    show (get pc siw rate (endFlavor pc) _ _ i).1 = _
+    rw [open_compact_run hpc hsiw _ (endFlavor_ok pc) wf]
+    simp [tableFn, emptyEnd, endMono, endFn, fillFrom]
+  · rw [if_neg he]
+    by_cases hmono : endMono 0 ends = true
+    · obtain ⟨T, hT, wf, hfn⟩ := end_table_spec (pc := pc) (siw := siw) hpc hsiw hrate ends len hmono hle hsmall
+      rw [hT, if_pos hmono]
+      dsimp only
+      rw [end_runFrom_compact]
+      show (get pc siw rate (endFlavor pc) _ _ i).1 = _
+      rw [open_compact_run hpc hsiw _ (endFlavor_ok pc) wf, hfn]
+    · have hnone : tryBuildEnd pc siw rate ends len = none := by
+        unfold tryBuildEnd
+        dsimp only
+        rw [endLoop_eq, if_neg hmono]
+      rw [hnone, if_neg hmono]
+      rfl
+
+end EndP
 end SV.YamlPos
